@@ -620,6 +620,10 @@ Rock::Rebuild::finalizeOrThrow(const sfileno fileNo, LoadingEntry &le)
     Must(slotId < 0);
     Must(mappedSize == le.size);
 
+    // an entry size promised by a slot header or by the entry metadata must
+    // be the size of the chain we found; a shorter chain is a truncated entry
+    Must(!anchor.basics.swap_file_sz || anchor.basics.swap_file_sz == le.size);
+
     if (!anchor.basics.swap_file_sz)
         anchor.basics.swap_file_sz = le.size;
     EBIT_SET(anchor.basics.flags, ENTRY_VALIDATED);
